@@ -475,8 +475,10 @@ class StateTransactionBase(_TransactionBase):
         descriptor_handle = entity.state.DescriptorHandle
         old_state = self._mdib.states.descriptor_handle.get_one(entity.handle, allow_none=True)
         tmp_state = copy.deepcopy(entity.state)
+        descriptor_container = self._mdib.descriptions.handle.get_one(descriptor_handle)
+        # refer to the descriptor of this mdib, not to the copy that came with the entity
+        tmp_state.descriptor_container = descriptor_container
         if adjust_version_counter:
-            descriptor_container = self._mdib.descriptions.handle.get_one(descriptor_handle)
             tmp_state.DescriptorVersion = descriptor_container.DescriptorVersion
             if old_state is not None:
                 # update from old state
@@ -762,11 +764,12 @@ class ContextStateTransaction(_TransactionBase):
                 raise ApiUsageError('Transaction only handles context states!')
 
             tmp = copy.deepcopy(state_container)
+            # refer to the descriptor of this mdib, not to the copy that came with the entity
+            tmp.descriptor_container = self._mdib.descriptions.handle.get_one(entity.handle)
 
             if old_state is None:
                 # this is a new state
-                tmp.descriptor_container = entity.descriptor
-                tmp.DescriptorVersion = entity.descriptor.DescriptorVersion
+                tmp.DescriptorVersion = tmp.descriptor_container.DescriptorVersion
                 if adjust_version_counter:
                     self._mdib.context_states.set_version(tmp)
             elif adjust_version_counter:
